@@ -19,14 +19,16 @@ RULE = ("cases = (sample, fraction, dtype, container) drawn by Hypothesis; non-t
 ASSUMPTIONS = ["integer inputs are below 2**53 so the float64 result array can hold them exactly",
                "NaN-free samples (ordering of NaN is undefined)"]
 
-DTYPES = ["float64", "float32", "int64", "int32", "uint8", "uint32", "int8"]
+DTYPES = ["float64", "float32", "int64", "int32", "uint8", "uint32", "int8", "int16", "bool"]
 
 
 @st.composite
 def column(draw, n, dtype):
     kind = draw(st.sampled_from(["ties", "smooth", "outlier", "huge", "grid"]))
+    if dtype == "bool":
+        return [draw(st.booleans()) for _ in range(n)]
     if dtype.startswith("int") or dtype.startswith("uint"):
-        lim = {"int32": 2**20, "int64": 2**40, "uint8": 255, "uint32": 2**31, "int8": 60}[dtype]   # int8: differences stay in range
+        lim = {"int32": 2**20, "int64": 2**40, "uint8": 255, "uint32": 2**31, "int8": 127, "int16": 32767}[dtype]
         low = 0 if dtype.startswith("uint") else -lim
         if kind in ("ties", "grid"):
             pool = draw(st.lists(st.integers(max(low, -50), 50), min_size=1, max_size=6))
@@ -129,11 +131,14 @@ def brute_check(col, lo, hi, f, label):
     left = np.searchsorted(s, s, side="left")
     right = np.searchsorted(s, s, side="right")
     cnt = right[None, :] - left[:, None]  # points in [s_i, s_j]
+    # widths of integer samples are exact integers (computed here in int64, whatever the storage type of the sample); widths of
+    # floating-point samples are the rounded differences in the sample's own precision
+    sw = s.astype(np.int64) if s.dtype.kind in "iub" else s
     with np.errstate(over="ignore", invalid="ignore"):
-        wid = s[None, :] - s[:, None]  # same dtype, same subtraction as the implementation
+        wid = sw[None, :] - sw[:, None]
         ilo = int(np.argmax(s64 == lo))
         ihi = int(np.argmax(s64 == hi))
-        w_rep = s[ihi] - s[ilo]
+        w_rep = sw[ihi] - sw[ilo]
     ok = (cnt >= inside) & (np.arange(n)[None, :] >= np.arange(n)[:, None])
     if np.any(ok & (wid < w_rep)):
         i, j = np.argwhere(ok & (wid < w_rep))[0]
